@@ -292,6 +292,7 @@ def run_impl(ctx, ops, other=None):
         k = op["op"]
         target = node if op.get("via") == "node" else A
         res = None
+        skip_model = False
         try:
             if k == "view_bad_rename":
                 # not part of the model: the call must raise and leave everything as it was (check_state compares)
@@ -467,6 +468,11 @@ def run_impl(ctx, ops, other=None):
                     h["last"] = op["value"]
             elif k == "view_rename":
                 new = canon(ctx, (op["ns"], op["name"]))
+                # renaming an attribute object that was removed from its node is outside the property (the library
+                # answers with an AssertionError or does nothing, depending on which setter is reached): the call is
+                # made, it must not change anything (check_state), and it is not compared with the model (false alarm
+                # of a thorough-tier run: model "ok" vs implementation AssertionError)
+                skip_model = not h["live"]
                 try:
                     if op.get("by", "key") == "key":
                         v._set_new_key(op["ns"], op["name"])
@@ -506,8 +512,8 @@ def run_impl(ctx, ops, other=None):
             res = f"EXC {type(e).__name__}"
             problems.append({"why": f"operation raised {type(e).__name__}: {e}", "op": op})
         check_state(o)
-        results.append(res)
-        resolved.append(o)
+        results.append(None if skip_model else res)
+        resolved.append(None if skip_model else o)
     # final state: the mapping equals the dictionary (through the public interface)
     try:
         final = {canon(ctx, q): A[q].value for q in A}
